@@ -12,6 +12,9 @@ use crate::solve::Violation;
 
 pub mod knapsack;
 pub mod misp;
+pub mod max2sat;
+pub mod mcp;
+pub mod golomb;
 
 /// One generated instance of an example.
 #[derive(Debug, Clone)]
@@ -43,7 +46,7 @@ pub struct ExampleSpec {
 
 pub fn ncpus() -> usize { num_cpus::get() }
 pub fn specs() -> Vec<ExampleSpec> {
-    vec![knapsack::spec(), misp::spec()]
+    vec![knapsack::spec(), misp::spec(), max2sat::spec(), mcp::spec(), golomb::spec()]
 }
 pub fn spec_of(name: &str) -> Option<ExampleSpec> { specs().into_iter().find(|s| s.name == name) }
 
